@@ -1,4 +1,4 @@
-(* The configuration of the Kinds model for the working tree: the three shape switches and the
+(* The configuration of the Kinds model for the working tree: the six shape switches and the
    name tables read off the source by harness/tr/c09.py (coq/gen/GenC09.v).  Definitions only. *)
 From Coq Require Import List String.
 Import ListNotations.
@@ -6,7 +6,8 @@ Open Scope string_scope.
 From Dagrt Require Import GenC09 Kinds.
 
 Definition cfg0 : cfg :=
-  mkCfg c09_power_returns_kind c09_new_entry_marks c09_isnan_any c09_conflict_raises c09_state_exact c09_state_prefixes.
+  mkCfg c09_power_returns_kind c09_new_entry_marks c09_isnan_any c09_conflict_raises
+        c09_finder_restarts c09_matrix_need_arrays c09_state_exact c09_state_prefixes.
 
 (* NumpyInterpreter.run_single_step keeps exactly these names from one step to the next *)
 Definition keep0 : string -> bool := keep_of c09_keep_exact c09_keep_prefixes.
